@@ -137,6 +137,7 @@ pub fn profiles() -> Vec<Profile> {
         Profile { max_rules: 7, empty_rules: true, ..Profile::ebnf() },
         Profile::full(),
         Profile { pratt: true, parts: true, choice: true, ..Profile::base("pratt-choice") },
+        Profile { max_rules: 16, max_tokens: 8, depth: 2, name: "big", ..Profile::full() },
     ]
 }
 
@@ -201,7 +202,7 @@ pub fn run(ctx: &Ctx) -> i32 {
     ev.set("exhaustive_subspaces", json!(fams.iter().map(|f| format!("{f:?}")).collect::<Vec<_>>()));
     let cases = ctx.tier.pick(200_000u32, 2_000_000u32);
     for p in profiles() {
-        let out = prop::run_prop("C14", ctx.tier, ctx.seed, p.name, cases / 4, ctx.threads, 400, |stream, ev| {
+        let out = prop::run_prop("C14", ctx.tier, ctx.seed, p.name, cases / 5, ctx.threads, if p.name == "big" { 900 } else { 400 }, |stream, ev| {
             let g = ggen::build(&p, stream);
             check_grammar(&g, ev, p.name).map(|_| ())
         });
